@@ -509,3 +509,19 @@ pub fn eval_expr(expr: &str, spec: &CtxSpec) -> Result<Resolved, (String, String
 	let n = v.expect_num().map_err(|e| err_kind(&e))?;
 	describe(&n)
 }
+
+/// `eval_expr` followed by the tree's own `Value::simplify` (the step applied
+/// before a number is printed): merging of compatible units, removal of
+/// aliases, replacement of a compound unit by its default unit.
+///
+/// # Errors
+/// (error variant name, message).
+pub fn eval_expr_simplified(expr: &str, spec: &CtxSpec) -> Result<Resolved, (String, String)> {
+	let mut ctx = make_context(spec);
+	let attrs = crate::Attrs::default();
+	let v = crate::eval::evaluate_to_value(expr, None, attrs, &mut ctx, &Never)
+		.map_err(|e| err_kind(&e))?;
+	let n = v.expect_num().map_err(|e| err_kind(&e))?;
+	let n = n.simplify(attrs, &mut ctx, &Never).map_err(|e| err_kind(&e))?;
+	describe(&n)
+}
